@@ -533,6 +533,29 @@ func runC19(c *fw.Ctx) {
 		stepMust("Insert(a value of its own type)", func() at.List { return l.Insert(0, listFixture(depth, 2).outer) })
 		stepMust("Replace(a value of its own type)", func() at.List { return l.Replace(0, listFixture(depth, 3).outer) })
 		stepMust("SetTF(a value of its own type)", func() at.List { return l.SetTF("#1", listFixture(depth, 4).outer) })
+		// iterations whose callback shortens the list they run over still return the registered value
+		step("ForEach(callback pops)", func() at.List {
+			return l.Add(1, 2, 3).ForEach(func(int, any) {
+				if l.Count() > 1 {
+					l.Pop()
+				}
+			})
+		})
+		step("ForEachValue(callback deletes)", func() at.List {
+			return l.Add(1, 2, 3).ForEachValue(func(any) {
+				if l.Count() > 1 {
+					l.Delete(0)
+				}
+			})
+		})
+		step("ForEachInt(callback clears)", func() at.List { return l.Add(1, 2, 3).ForEachInt(func(int) { l.Clear() }) })
+		step("ForEachString(callback pops)", func() at.List {
+			return l.Add("a", "b").ForEachString(func(string) {
+				if l.Count() > 0 {
+					l.Pop()
+				}
+			})
+		})
 		step("Delete(an index twice)", func() at.List { return l.Add(1, 2, 3).Delete(1, 1) })
 		step("Delete(indexes in descending order, one twice)", func() at.List { return l.Add(1, 2, 3, 4).Delete(2, 0, 2) })
 		step("Delete(all indexes)", func() at.List {
